@@ -616,3 +616,36 @@ def coq_codes_retry(ctx, tag, defs, exprs, imports, targets, shard=40):
             continue
         break
     raise core.CheckFailure("coq evaluation failed: %s" % (failures[0],))
+
+
+# ---------------------------------------------------------------------------------------
+# the witnesses of the recorded findings, as generator programs (always part of the runs)
+# ---------------------------------------------------------------------------------------
+
+def corpus_c06():
+    """[(program, [goal ...])]"""
+    out = []
+    # C06-rec-ambiguous-bound: trait Tr4 {} trait Tr1<P> where Self: Tr4 {}; if (X: Tr1<S0>; X: Tr1<S1>) { X: Tr4 }
+    p = EProg(_consts(2), [ETrait("Tr4"), ETrait("Tr1", 1, [impl_atom("Tr4", var(0))])], [], "corpus-rec-ambig")
+    g = ("forall", (1,), ("if", ((("impl", "Tr1", (var(1), adt("S0"))), ()), (("impl", "Tr1", (var(1), adt("S1"))), ())),
+                          ("atom", ("impl", "Tr4", (var(1),)))))
+    g1 = ("forall", (1,), ("if", ((("impl", "Tr1", (var(1), adt("S0"))), ()),), ("atom", ("impl", "Tr4", (var(1),)))))
+    out.append((p, [g, g1]))
+    # F7 within one query: WellFormed over a supertrait / parameter-bound cycle
+    p = EProg(_consts(1), [ETrait("Tr0", 0, [impl_atom("Tr1", var(0))]), ETrait("Tr1", 0, [impl_atom("Tr3", var(0), adt("S0"))]),
+                           ETrait("Tr2", 0, [impl_atom("Tr1", var(0)), impl_atom("Tr3", var(0), adt("S0"))]),
+                           ETrait("Tr3", 1, [impl_atom("Tr0", var(0)), impl_atom("Tr2", var(1))])], [], "corpus-slg-cocycle")
+    hyp = ((("impl", "Tr2", (var(1),)), ()),)
+    out.append((p, [("forall", (1,), ("if", hyp, ("atom", ("wf", "Tr2", (var(1),))))),
+                    ("forall", (1,), ("if", hyp, ("atom", ("wf", "Tr2", (adt("S0"),))))),
+                    ("forall", (1,), ("if", hyp, ("atom", ("impl", "Tr0", (var(1),)))))]))
+    return out
+
+
+def corpus_c21():
+    """the witness of C21-wf-circular (Rules/Wf.v WfExamples.Dh)"""
+    p = EProg([EAdt("NotHash"), EAdt("Set", 1, [impl_atom("Hash", var(0))], []), EAdt("Vec", 1, [], [])],
+              [ETrait("Hash"), ETrait("Bar", 1, [impl_atom("Hash", var(1))]), ETrait("Goo"), ETrait("Foo", 0, [impl_atom("Goo", var(0))])],
+              [pg.Impl(1, ("Bar", (adt("Set", var(0)), var(0)))), pg.Impl(1, ("Goo", (adt("Vec", var(0)),)), [("Hash", (var(0),))]),
+               pg.Impl(1, ("Foo", (adt("Vec", var(0)),)), [("Bar", (adt("Set", var(0)), var(0)))])], "corpus-wf-circular")
+    return [(p, {"missing": None})]
